@@ -46,20 +46,23 @@ Record state := mkS {
   ret     : list Z;          (* numbers returned by the last maintenance call *)
   pendrel : option (list nat);(* toDelete of a ReleaseBuckets call between its two halves *)
   maxpay  : list nat;        (* Cache.maxPayloadSize, per cache *)
-  nrec    : Z                (* number of payload maps re-created so far (metric MapsRecreated) *)
+  nrec    : Z;               (* number of payload maps re-created so far (metric MapsRecreated) *)
+  pendrot : option nat       (* only in the split-rotation variant (v_rotate_atomic = false): the new generation of a
+                                rotation that has switched the caches but not yet updated lastGen / generations *)
 }.
 
-Definition set_entries st x := mkS x (threads st) (caches st) (gens st) (listed st) (buckets st) (lastgen st) (limit st) (maxgen st) (esz st) (ret st) (pendrel st) (maxpay st) (nrec st).
-Definition set_threads st x := mkS (entries st) x (caches st) (gens st) (listed st) (buckets st) (lastgen st) (limit st) (maxgen st) (esz st) (ret st) (pendrel st) (maxpay st) (nrec st).
-Definition set_caches st x := mkS (entries st) (threads st) x (gens st) (listed st) (buckets st) (lastgen st) (limit st) (maxgen st) (esz st) (ret st) (pendrel st) (maxpay st) (nrec st).
-Definition set_gens st x := mkS (entries st) (threads st) (caches st) x (listed st) (buckets st) (lastgen st) (limit st) (maxgen st) (esz st) (ret st) (pendrel st) (maxpay st) (nrec st).
-Definition set_listed st x := mkS (entries st) (threads st) (caches st) (gens st) x (buckets st) (lastgen st) (limit st) (maxgen st) (esz st) (ret st) (pendrel st) (maxpay st) (nrec st).
-Definition set_buckets st x := mkS (entries st) (threads st) (caches st) (gens st) (listed st) x (lastgen st) (limit st) (maxgen st) (esz st) (ret st) (pendrel st) (maxpay st) (nrec st).
-Definition set_lastgen st x := mkS (entries st) (threads st) (caches st) (gens st) (listed st) (buckets st) x (limit st) (maxgen st) (esz st) (ret st) (pendrel st) (maxpay st) (nrec st).
-Definition set_ret st x := mkS (entries st) (threads st) (caches st) (gens st) (listed st) (buckets st) (lastgen st) (limit st) (maxgen st) (esz st) x (pendrel st) (maxpay st) (nrec st).
-Definition set_maxpay st x := mkS (entries st) (threads st) (caches st) (gens st) (listed st) (buckets st) (lastgen st) (limit st) (maxgen st) (esz st) (ret st) (pendrel st) x (nrec st).
-Definition set_nrec st x := mkS (entries st) (threads st) (caches st) (gens st) (listed st) (buckets st) (lastgen st) (limit st) (maxgen st) (esz st) (ret st) (pendrel st) (maxpay st) x.
-Definition set_pendrel st x := mkS (entries st) (threads st) (caches st) (gens st) (listed st) (buckets st) (lastgen st) (limit st) (maxgen st) (esz st) (ret st) x (maxpay st) (nrec st).
+Definition set_entries st x := mkS x (threads st) (caches st) (gens st) (listed st) (buckets st) (lastgen st) (limit st) (maxgen st) (esz st) (ret st) (pendrel st) (maxpay st) (nrec st) (pendrot st).
+Definition set_threads st x := mkS (entries st) x (caches st) (gens st) (listed st) (buckets st) (lastgen st) (limit st) (maxgen st) (esz st) (ret st) (pendrel st) (maxpay st) (nrec st) (pendrot st).
+Definition set_caches st x := mkS (entries st) (threads st) x (gens st) (listed st) (buckets st) (lastgen st) (limit st) (maxgen st) (esz st) (ret st) (pendrel st) (maxpay st) (nrec st) (pendrot st).
+Definition set_gens st x := mkS (entries st) (threads st) (caches st) x (listed st) (buckets st) (lastgen st) (limit st) (maxgen st) (esz st) (ret st) (pendrel st) (maxpay st) (nrec st) (pendrot st).
+Definition set_listed st x := mkS (entries st) (threads st) (caches st) (gens st) x (buckets st) (lastgen st) (limit st) (maxgen st) (esz st) (ret st) (pendrel st) (maxpay st) (nrec st) (pendrot st).
+Definition set_buckets st x := mkS (entries st) (threads st) (caches st) (gens st) (listed st) x (lastgen st) (limit st) (maxgen st) (esz st) (ret st) (pendrel st) (maxpay st) (nrec st) (pendrot st).
+Definition set_lastgen st x := mkS (entries st) (threads st) (caches st) (gens st) (listed st) (buckets st) x (limit st) (maxgen st) (esz st) (ret st) (pendrel st) (maxpay st) (nrec st) (pendrot st).
+Definition set_ret st x := mkS (entries st) (threads st) (caches st) (gens st) (listed st) (buckets st) (lastgen st) (limit st) (maxgen st) (esz st) x (pendrel st) (maxpay st) (nrec st) (pendrot st).
+Definition set_maxpay st x := mkS (entries st) (threads st) (caches st) (gens st) (listed st) (buckets st) (lastgen st) (limit st) (maxgen st) (esz st) (ret st) (pendrel st) x (nrec st) (pendrot st).
+Definition set_nrec st x := mkS (entries st) (threads st) (caches st) (gens st) (listed st) (buckets st) (lastgen st) (limit st) (maxgen st) (esz st) (ret st) (pendrel st) (maxpay st) x (pendrot st).
+Definition set_pendrot st x := mkS (entries st) (threads st) (caches st) (gens st) (listed st) (buckets st) (lastgen st) (limit st) (maxgen st) (esz st) (ret st) (pendrel st) (maxpay st) (nrec st) x.
+Definition set_pendrel st x := mkS (entries st) (threads st) (caches st) (gens st) (listed st) (buckets st) (lastgen st) (limit st) (maxgen st) (esz st) (ret st) x (maxpay st) (nrec st) (pendrot st).
 
 (* ------------------------------------------------------------------ list helpers *)
 Fixpoint upd {A} (i : nat) (f : A -> A) (l : list A) : list A :=
@@ -123,10 +126,12 @@ Record variant := mkV {
   v_save_rehome : bool;    (* b9905fa: save sets e.gen = c.currentGeneration *)
   v_release_fixed : bool;  (* 9ff7c19: ReleaseBuckets walks the released indices from the highest down *)
   v_add_locked : bool;     (* save does gen.size.Add(size) before c.mu.Unlock() (repair after the hook commit 64b20cb) *)
+  v_rotate_atomic : bool;  (* Cleaner.rotate switches the caches and updates lastGen / generations in ONE critical section
+                              (false: a seeded regression that ran the SetGeneration loop over a snapshot before taking the lock) *)
   v_rebuild_all : bool     (* recreatePayload copies EVERY entry into the new map (false: a seeded regression that
                               skipped entries with wg != nil, i.e. also entries that are still loading) *)
 }.
-Definition repaired := mkV true true true true true.
+Definition repaired := mkV true true true true true true.
 
 (* Cache.recover: `if c.payload[key] == e { delete(c.payload, key) }` (before 290ab18: delete by key,
    whatever entry is there now), then wg.Done() on the creator's own (still wg != nil, i.e. abandoned) entry *)
@@ -208,6 +213,21 @@ Definition rotate (st : state) : state :=
   let bk := buckets st in
   set_caches (set_listed (set_lastgen (set_gens st (gens st ++ [mkG 0 false])) g) (listed st ++ [g]))
              (mapi_from (fun i c => if memb i bk then mkC g (creleased c) else c) 0%nat (caches st)).
+
+(* the split rotation of the seeded regression: first half = SetGeneration(new) on the buckets of a snapshot,
+   second half (a later LRotate label) = lastGen / generations updated under the lock *)
+Definition do_rotate_split (st : state) : state :=
+  match pendrot st with
+  | Some g => set_pendrot (set_listed (set_lastgen st g) (listed st ++ [g])) None
+  | None =>
+      let lastsz := gsz (lastgen st) (gens st) in
+      if (maxgen st =? 0) || (lastsz <? maxgen st) then set_ret st [0; lastsz]
+      else let g := length (gens st) in
+           let bk := buckets st in
+           set_ret (set_pendrot (set_caches (set_gens st (gens st ++ [mkG 0 false]))
+                                            (mapi_from (fun i c => if memb i bk then mkC g (creleased c) else c) 0%nat (caches st)))
+                                (Some g)) [1; lastsz]
+  end.
 
 Definition do_rotate (st : state) : state :=
   let lastsz := gsz (lastgen st) (gens st) in
@@ -372,7 +392,7 @@ Definition step_v (var : variant) (st : state) (l : label) : option state :=
   | LStep t => step_thread var st t
   | LNewCache => Some (new_cache st)
   | LRelease c => if Nat.ltb c (length (caches st)) then Some (release c st) else None
-  | LRotate => Some (do_rotate st)
+  | LRotate => Some (if v_rotate_atomic var then do_rotate st else do_rotate_split st)
   | LCleanBegin => Some (clean_begin st)
   | LCleanCache c => Some (clean_cache_v var c st)
   | LGcGens => Some (gc_gens st)
@@ -391,7 +411,7 @@ Definition run := run_v repaired.
 
 (* NewCleaner(limit): one generation, listed, last *)
 Definition init (lim mg es : Z) : state :=
-  mkS [] [] [] [mkG 0 false] [0%nat] [] 0%nat lim mg es [] None [] 0.
+  mkS [] [] [] [mkG 0 false] [0%nat] [] 0%nat lim mg es [] None [] 0 None.
 
 (* ------------------------------------------------------------------ domain of the accounting theorems:
    a monitor evaluated before a step. One pattern is excluded:
@@ -440,6 +460,10 @@ Inductive ev :=
 | ERotate
 | ECleanup            (* Cleaner.Cleanup: LCleanBegin, then Cache.Cleanup of every bucket *)
 | EGcGens             (* CleanEmptyGenerations *)
+| ERotateNew          (* a Rotate that rotates, with a NewCache (AddBucket) started from inside its SetGeneration loop:
+                         AddBucket needs the cleaner lock, which rotate holds: LRotate; LNewCache *)
+| ECleanupNew         (* the same inside the rotate of markStale (Cleanup marks the last generation stale too):
+                         LCleanBegin; LNewCache; Cache.Cleanup of every bucket of the snapshot *)
 | ERelBuckets         (* ReleaseBuckets *)
 | ERelBucketsNew.     (* ReleaseBuckets with a NewCache (AddBucket) landing between its unlocked scan and its
                          locked removal: LRelCollect; LNewCache; LRelRemove *)
@@ -566,6 +590,30 @@ Definition exec_ev (st : state) (e : ev) : option (state * list Z) :=
                          | None => None
                          end
           | r => Some (st1, r)
+          end
+      | None => None
+      end
+  | ERotateNew =>
+      match step st LRotate with
+      | Some st1 => match ret st1 with
+                    | 1 :: _ => match step st1 LNewCache with Some st2 => Some (st2, ret st1) | None => None end
+                    | _ => None
+                    end
+      | None => None
+      end
+  | ECleanupNew =>
+      match step st LCleanBegin with
+      | Some st1 =>
+          match ret st1 with
+          | 1 :: rest =>
+              match step st1 LNewCache with
+              | Some st1' => match clean_all (buckets st) st1' 0 0 with
+                             | Some (st2, bytes, cleaned) => Some (st2, 1 :: rest ++ [bytes; cleaned; nrec st2])
+                             | None => None
+                             end
+              | None => None
+              end
+          | _ => None
           end
       | None => None
       end
